@@ -112,6 +112,7 @@ class Fn:
                 T.fail(rel, d, "decorator on generator %s is not understood" % name)
         self.g = out_name or name
         self.body = T.body_nodoc(self.node)
+        self._check_defaults_and_param_mutation()
         self.params = self._params()
         self.mesh = None          # name of the RawMeshData local
         self.mesh_from_arrays = None
@@ -123,6 +124,53 @@ class Fn:
         self.uses_len_vertices = False
         self.extra_int_params = []   # e.g. number of input vertices of chain_of_vertices
         self.input_mesh = None
+
+    def _check_defaults_and_param_mutation(self):
+        """Defaults are evaluated once: only immutable constants are fine as they are; a `Vec(<numbers>)` default (a
+        mutable array shared by all calls) is accepted only if the function never modifies that parameter in place;
+        likewise no parameter object handed in by the caller may be modified in place."""
+        a = self.node.args
+        defaults = [None] * (len(a.args) - len(a.defaults)) + list(a.defaults)
+        names = [x.arg for x in a.args]
+        for arg, d in zip(a.args, defaults):
+            if d is None or isinstance(d, ast.Constant):
+                continue
+            if isinstance(d, ast.UnaryOp) and isinstance(d.operand, ast.Constant):
+                continue
+            ok = isinstance(d, ast.Call) and T.dotted(d.func) == "Vec" and not d.keywords and all(
+                isinstance(x, ast.Constant) or (isinstance(x, ast.UnaryOp) and isinstance(x.operand, ast.Constant)) for x in d.args)
+            if not ok:
+                T.fail(self.rel, d, "default value of parameter %s of %s is not an immutable constant or Vec(<numbers>)" % (arg.arg, self.name))
+        for n in ast.walk(self.node):
+            tg = []
+            if isinstance(n, ast.AugAssign):
+                tg = [n.target]
+            elif isinstance(n, ast.Assign):
+                tg = [t for t in n.targets if isinstance(t, (ast.Subscript, ast.Attribute))]
+            elif isinstance(n, ast.Call) and isinstance(n.func, ast.Attribute) and isinstance(n.func.value, ast.Name) \
+                    and n.func.value.id in names and n.func.attr in ("fill", "sort", "resize", "put", "itemset", "append", "extend", "clear", "pop"):
+                T.fail(self.rel, n, "%s: parameter %s is modified in place" % (self.name, n.func.value.id))
+            for t in tg:
+                base = t
+                while isinstance(base, (ast.Subscript, ast.Attribute)):
+                    base = base.value
+                if isinstance(base, ast.Name) and base.id in names and (isinstance(n, ast.AugAssign) or base is not t):
+                    # `p += ..`, `p[k] = ..`, `p.x = ..` write into the caller's (or the shared default) object
+                    if isinstance(n, ast.AugAssign) and isinstance(t, ast.Name) and self._rebound_before(base.id, n):
+                        continue
+                    T.fail(self.rel, n, "%s: parameter %s is modified in place" % (self.name, base.id))
+
+    def _rebound_before(self, name, node):
+        """the name was re-assigned to a fresh value (`x = expr`) earlier at top level, so `x += ..` no longer touches the argument"""
+        for s_ in self.node.body:
+            if s_ is node or any(m is node for m in ast.walk(s_)):
+                return False
+            if isinstance(s_, ast.Assign) and any(isinstance(t, ast.Name) and t.id == name for t in s_.targets):
+                return True
+            if isinstance(s_, ast.Assign) and any(isinstance(t, ast.Tuple) and any(isinstance(e, ast.Name) and e.id == name for e in t.elts)
+                                                  for t in s_.targets):
+                return True
+        return False
 
     # ------------------------------------------------------------------ parameters
     def _params(self):
